@@ -239,7 +239,9 @@ func (g *Gen) load(st *State, p *Val, pos token.Pos, text string) *Val {
 			unsup("whole-table load")
 		}
 		if !isScalarKind(kindOf(at.Elem())) {
-			unsup("array load with aggregate elements")
+			// the value of a whole array of aggregates is only needed for its (constant) length, e.g. `for i := range arr`;
+			// any other use of this term is not valid SMT and fails its obligation rather than passing it
+			return &Val{K: KArray, T: deref(p.T), S: "opaque!aggregate!array"}
 		}
 		return &Val{K: KArray, T: deref(p.T), S: sel(g.memSym(st, at.Elem(), "", kindOf(at.Elem())), p.Arr)}
 	}
